@@ -17,6 +17,7 @@ package limit
 import (
 	"context"
 	"fmt"
+	"os"
 	"sort"
 	"strings"
 	"sync"
@@ -436,6 +437,10 @@ func TestVerifC08PeriodAlignZone(t *testing.T) {
 
 func c08Wall(m *vk.M, t0 time.Time) {
 	m.Extra("wall_s", time.Since(t0).Round(10*time.Millisecond).Seconds())
+	// descriptors held by the test process (go-redis clients cannot be closed from here)
+	if d, err := os.ReadDir("/proc/self/fd"); err == nil {
+		m.Extra("open_fds_at_end", len(d))
+	}
 }
 
 // c08TakeErrors counts Take calls that returned an error on a healthy server.
